@@ -23,7 +23,7 @@ for sd in sorted(glob.glob(os.path.join(ROOT, "seeded", "C*-*"))):
                 "how": "scripts/verify_seed.sh in a scratch worktree of /repo at that commit (removed afterwards)"}
         except Exception as e:
             print("bad", svp, e)
-    checks = meta.get("checks", {})
+    checks = {}  # rebuilt from the run directory given (a matrix run at one HEAD), not accumulated
     for f in glob.glob(os.path.join(CS, seed + ".*.txt")):
         prop = os.path.basename(f).split(".")[1]
         lines = [l for l in open(f).read().splitlines() if l.startswith(seed + " ")]
